@@ -48,7 +48,9 @@ use core::{
 };
 use std::time::Instant;
 
-use internal::{acquire_internal, try_acquire_internal, ChannelInternal, Internal};
+use internal::{
+    acquire_internal, next_handle_count, try_acquire_internal, ChannelInternal, Internal,
+};
 use pointer::KanalPtr;
 use signal::*;
 
@@ -116,7 +118,7 @@ impl<T> Clone for Sender<T> {
     fn clone(&self) -> Self {
         let mut internal = acquire_internal(&self.internal);
         if internal.send_count > 0 {
-            internal.send_count += 1;
+            internal.send_count = next_handle_count(internal.send_count);
         }
         drop(internal);
         Self {
@@ -136,7 +138,7 @@ impl<T> Clone for AsyncSender<T> {
     fn clone(&self) -> Self {
         let mut internal = acquire_internal(&self.internal);
         if internal.send_count > 0 {
-            internal.send_count += 1;
+            internal.send_count = next_handle_count(internal.send_count);
         }
         drop(internal);
         Self {
@@ -958,7 +960,7 @@ impl<T> Sender<T> {
     pub fn clone_async(&self) -> AsyncSender<T> {
         let mut internal = acquire_internal(&self.internal);
         if internal.send_count > 0 {
-            internal.send_count += 1;
+            internal.send_count = next_handle_count(internal.send_count);
         }
         drop(internal);
         AsyncSender::<T> {
@@ -1049,7 +1051,7 @@ impl<T> AsyncSender<T> {
     pub fn clone_sync(&self) -> Sender<T> {
         let mut internal = acquire_internal(&self.internal);
         if internal.send_count > 0 {
-            internal.send_count += 1;
+            internal.send_count = next_handle_count(internal.send_count);
         }
         drop(internal);
         Sender::<T> {
@@ -1262,7 +1264,7 @@ impl<T> Receiver<T> {
     pub fn clone_async(&self) -> AsyncReceiver<T> {
         let mut internal = acquire_internal(&self.internal);
         if internal.recv_count > 0 {
-            internal.recv_count += 1;
+            internal.recv_count = next_handle_count(internal.recv_count);
         }
         drop(internal);
         AsyncReceiver::<T> {
@@ -1423,7 +1425,7 @@ impl<T> AsyncReceiver<T> {
     pub fn clone_sync(&self) -> Receiver<T> {
         let mut internal = acquire_internal(&self.internal);
         if internal.recv_count > 0 {
-            internal.recv_count += 1;
+            internal.recv_count = next_handle_count(internal.recv_count);
         }
         drop(internal);
         Receiver::<T> {
@@ -1509,7 +1511,7 @@ impl<T> Clone for Receiver<T> {
     fn clone(&self) -> Self {
         let mut internal = acquire_internal(&self.internal);
         if internal.recv_count > 0 {
-            internal.recv_count += 1;
+            internal.recv_count = next_handle_count(internal.recv_count);
         }
         drop(internal);
         Self {
@@ -1523,7 +1525,7 @@ impl<T> Clone for AsyncReceiver<T> {
     fn clone(&self) -> Self {
         let mut internal = acquire_internal(&self.internal);
         if internal.recv_count > 0 {
-            internal.recv_count += 1;
+            internal.recv_count = next_handle_count(internal.recv_count);
         }
         drop(internal);
         Self {
